@@ -116,6 +116,7 @@ def step (s : St) (w : List String) : St × String :=
       match (scan s.wfile).stop with
       | .err e => (s, s!"fail:err:{e}")
       | _ => (s, "fail:hang")
+  | ["wdrain"] => ({ s with wpend := 0 }, "ok idx=0")
   | ["wput", w1] =>
     match parseRec? w1 with
     | some r =>
